@@ -24,6 +24,7 @@ def p_is_xid_continue(c):
 
 NAMED = {
     "is_whitespace": p_is_whitespace,
+    "is_ascii_whitespace": lambda c: c in " \t\n\x0c\r",
     "is_ascii_digit": lambda c: "0" <= c <= "9",
     "is_ascii": lambda c: ord(c) < 128,
     "is_ascii_hexdigit": lambda c: c in "0123456789abcdefABCDEF",
@@ -42,6 +43,7 @@ NAMED = {
 
 # P subset-of Q
 SUBSET = {
+    ("is_ascii_whitespace", "is_whitespace"), ("is_ascii_whitespace", "is_ascii"),
     ("is_ascii_digit", "is_xid_continue"), ("is_ascii_digit", "is_ascii"), ("is_ascii_digit", "is_ascii_hexdigit"),
     ("is_ascii_digit", "is_ascii_alphanumeric"), ("is_ascii_digit", "is_alphanumeric"), ("is_ascii_digit", "is_numeric"),
     ("is_xid_start", "is_xid_continue"),
